@@ -72,7 +72,7 @@ package ssh
 //@     arg(Agent.Add, c, 1).ConfirmBeforeUse == old(a.addedKey.ConfirmBeforeUse) &&
 //@     arg(Agent.Add, c, 1).Comment == a.opt.CertLabel && arg(Agent.Add, c, 1).Certificate != nil &&
 //@     exists(i, 0 <= i && i < len(certs), key.certid(arg(Agent.Add, c, 1).Certificate) == blobid(certs[i])))
-//@   ensures [every-certificate-inserted-on-success] result == nil ==> forall(i, 0 <= i && i < len(certs), certBlob(blobid(certs[i])) ==>
+//@   ensures [every-certificate-inserted-on-success] result == nil ==> forall(i, 0 <= i && i < len(certs), (typeof(certs[i]) == *ssh.Certificate && certBlob(blobid(certs[i]))) ==>
 //@     exists(c, a0 <= c && c < calls(Agent.Add), key.certid(arg(Agent.Add, c, 1).Certificate) == blobid(certs[i]) && ret(Agent.Add, c, 0) == nil))
 //@   ensures [no-wholesale-removal] calls(Agent.RemoveAll) == ra0
 //@   ensures [key-material-untouched] a.addedKey.PrivateKey == old(a.addedKey.PrivateKey) && a.addedKey.LifetimeSecs == old(a.addedKey.LifetimeSecs)
@@ -85,5 +85,5 @@ package ssh
 //@       arg(Agent.Add, c, 1).ConfirmBeforeUse == old(a.addedKey.ConfirmBeforeUse) &&
 //@       arg(Agent.Add, c, 1).Comment == a.opt.CertLabel && arg(Agent.Add, c, 1).Certificate != nil &&
 //@       exists(i, 0 <= i && i < len(certs), key.certid(arg(Agent.Add, c, 1).Certificate) == blobid(certs[i])))
-//@     invariant forall(i, 0 <= i && i < rangeindex + 1 && i < len(certs), certBlob(blobid(certs[i])) ==>
+//@     invariant forall(i, 0 <= i && i < rangeindex + 1 && i < len(certs), (typeof(certs[i]) == *ssh.Certificate && certBlob(blobid(certs[i]))) ==>
 //@       exists(c, a0 <= c && c < calls(Agent.Add), key.certid(arg(Agent.Add, c, 1).Certificate) == blobid(certs[i]) && ret(Agent.Add, c, 0) == nil))
